@@ -155,7 +155,7 @@ def check_against_model(part, campaign, pr, fails, sample, theorem):
     d = first_diff(pr.lines, ml)
     if d is not None:
         part.violation('correspondence', campaign, 'corr:' + campaign, 'model and implementation disagree at op %d: %s' % (d, case['ops'][d]),
-                       {'insts': case['insts'], 'ops': case['ops'][:d + 1][-40:]},
+                       {'insts': case['insts'], 'ops': case['ops'][:d + 1]},
                        {'impl_line': pr.lines[d], 'model_line': ml[d], 'theorem_or_correspondence': theorem})
         return False
     return True
